@@ -47,7 +47,11 @@ DeepVariants == {Slice(Ptr(CatchElem, TRUE), FALSE, None, <<>>, <<>>),
 PreVariants == {Pre(kd, Prim("int", TRUE, None, c, <<T("gte", 2, "gte")>>, <<"ok">>)) : kd \in Sel({"ok", "err"}, {"ok", "err", "zerr", "mut"}, {"ok", "err", "zerr", "mut"}), c \in Sel({None}, {None}, {None, 5})}
 StructVariants == {Inner, Ptr(Inner, TRUE), Slice(Inner, FALSE, None, <<>>, <<>>)} \cup Sel({}, PreVariants, PreVariants) \cup Sel({Slice(Ptr(CatchElem, TRUE), FALSE, None, <<>>, <<>>), Slice(Pre("ok", CatchElem), FALSE, None, <<>>, <<>>)}, DeepVariants, DeepVariants)
 
-FieldVariants == PrimVariants \cup SliceVariants \cup PtrVariants \cup CustomVariants \cup StructVariants
+\* float leaves, for NaN (a present value that every built-in comparison rejects)
+FloatVariants == Sel({}, {Prim("float", TRUE, None, c, <<T("lte", 3, "lte")>>, <<>>) : c \in {None, 5}},
+                         {Prim("float", r, None, c, <<T("lte", 3, "lte")>>, <<>>) : r \in BOOLEAN, c \in {None, 5}})
+
+FieldVariants == FloatVariants \cup PrimVariants \cup SliceVariants \cup PtrVariants \cup CustomVariants \cup StructVariants
 
 LeafInputs == Sel({Missing, Bad, Val(1), Val(3)},
                   {Missing, Blank, Bad, Val(0), Val(1), Val(3)},
@@ -62,7 +66,8 @@ InnerInputs == Sel({Map(<<Ent("x", Val(1))>>), Map(<<Ent("x", Val(3))>>)},
 
 RECURSIVE ParseInputs(_)
 ParseInputs(node) ==
-  CASE node.k \in {"prim", "custom"} -> LeafInputs
+  CASE node.k = "prim" /\ node.ty = "float" -> {Missing, Val(1), Val(NaNV), SVal(NaNV)}
+    [] node.k \in {"prim", "custom"} -> LeafInputs
     [] node.k = "pre" -> {Missing, Blank, Bad, Val(3), SVal(1), SVal(3)}
     [] node.k = "slice"  -> IF Elem(node).k = "struct"
                             THEN {Missing, List(<<>>), List(<<Map(<<Ent("x", Val(1))>>), Map(<<Ent("x", Val(3))>>)>>),
@@ -75,7 +80,8 @@ ParseInputs(node) ==
 \* Validate is given a well-typed Go value
 RECURSIVE ValueInputs(_)
 ValueInputs(node) ==
-  CASE node.k \in {"prim", "custom"} -> {Val(0), Val(1), Val(3)}
+  CASE node.k = "prim" /\ node.ty = "float" -> {Val(0), Val(1), Val(NaNV)}
+    [] node.k \in {"prim", "custom"} -> {Val(0), Val(1), Val(3)}
     [] node.k = "pre" -> ValueInputs(Elem(node))
     [] node.k = "slice"  -> IF Elem(node).k = "struct"
                             THEN {Nil, List(<<Map(<<Ent("x", Val(1))>>), Map(<<Ent("x", Val(3))>>)>>),
